@@ -5,10 +5,10 @@ import time
 
 from . import common as C
 
-ALL_LISTS = ["P1", "P2", "P3", "P4", "F1", "F2", "F3", "F4", "F5", "V1", "V2", "V3", "V4", "V5", "V6", "V7", "M1", "M2", "M3"]
-TRACKED = ["P3", "P4", "F3", "F4", "F5", "V3", "V4", "V7", "M2", "M3"]
-ALIGNED = ["P2", "F2", "V1", "V3", "V5", "V6", "V7", "M1"]
-VARYING = ["V1", "V2", "V3", "V4", "V5", "V6", "V7", "M1", "M2", "M3"]
+ALL_LISTS = ["P1", "P2", "P3", "P4", "F1", "F2", "F3", "F4", "F5", "V1", "V2", "V3", "V4", "V5", "V6", "V7", "V8", "V9", "M1", "M2", "M3"]
+TRACKED = ["P3", "P4", "F3", "F4", "F5", "V3", "V4", "V7", "V9", "M2", "M3"]
+ALIGNED = ["P2", "F2", "V1", "V3", "V5", "V6", "V7", "V8", "V9", "M1"]
+VARYING = ["V1", "V2", "V3", "V4", "V5", "V6", "V7", "V8", "V9", "M1", "M2", "M3"]
 TRAIT_KINDS = ["T000", "T001", "T010", "T011", "T100", "T101", "T110", "T111"]
 
 
@@ -74,6 +74,12 @@ def spec(prop, tier):
             runs = hist_runs(pick, tier, depth=6) + [R(l, "AE", "hist", depth=5, junk=1) for l in lists if l not in pick]
             if prop in ("C03", "C05"):
                 runs += pair_runs([l for l in pick if l in ("F2", "V1", "V5", "M1")], ["NP"], tier, 4)
+            if prop == "C04":
+                # fixed sizes / span counts after copy, move, swap between vectors with different fixed sizes; elements
+                runs += pair_runs(["F1", "F3", "F5", "M1", "M2"], ["AE", "NP"], tier, 4) + elem_runs(["F3", "M2", "V3"], ["AE"], tier, 2)
+            if prop == "C02":
+                # copy / move / assignment between vectors whose blocks differ in size (budgets, fixed sizes, arenas)
+                runs += pair_runs(["F1", "F3", "V1", "V3", "M1", "M2"], ["NP", "PP"], tier, 4)
             if prop == "C03":
                 runs += elem_runs(["V5", "M1"], ["AE"], tier, 3)
             return runs
@@ -314,7 +320,7 @@ def run_check(prop, tier):
         cov["rule"] += ("; plus compile-time cells per list: one positive cell (get<I>, operator[], iterators on const access paths "
                         "yield const types) and 12 negative cells (every way of writing through a const_reference, const_iterator or "
                         "const element must be ill-formed)")
-    if prop in ("C02", "C03", "C04", "C05") and not internal:
+    if prop in ("C01", "C02", "C03", "C04", "C05") and not internal:
         from . import layout_checks
         lcov, lviol, linternal = layout_checks.run_layout(prop, tier, t0)
         internal += linternal
